@@ -8,11 +8,13 @@
 #include <djinterop/djinterop.hpp>
 #include <djinterop/engine/v2/engine_library.hpp>
 
+#include <cstring>
 #include <fstream>
 
 #include "common.hpp"
 #include "schemas.hpp"
 #include "snapjson.hpp"
+#include "trackrow.hpp"
 
 namespace dj = djinterop;
 namespace v2 = djinterop::engine::v2;
@@ -21,151 +23,12 @@ using tp = std::chrono::system_clock::time_point;
 
 namespace
 {
-// ---- column table of track_row: kind, field ----
-#define TRACK_COLUMNS(X)                                                                                              \
-    X(OI, play_order) X(I, length) X(OI, bpm) X(OI, year) X(S, path) X(S, filename) X(OI, bitrate) X(OD, bpm_analyzed)   \
-    X(I, album_art_id) X(OI, file_bytes) X(OS, title) X(OS, artist) X(OS, album) X(OS, genre) X(OS, comment)          \
-    X(OS, label) X(OS, composer) X(OS, remixer) X(OK, key) X(I, rating) X(OS, album_art) X(OT, time_last_played)      \
-    X(B, is_played) X(S, file_type) X(B, is_analyzed) X(TT, date_created) X(TT, date_added) X(B, is_available)        \
-    X(B, is_metadata_of_packed_track_changed) X(B, is_performance_data_of_packed_track_changed)                       \
-    X(OI, played_indicator) X(B, is_metadata_imported) X(I, pdb_import_key) X(OS, streaming_source) X(OS, uri)        \
-    X(B, is_beat_grid_locked) X(S, origin_database_uuid) X(I, origin_track_id) X(BL, track_data)                      \
-    X(BL, overview_waveform_data) X(BL, beat_data) X(BL, quick_cues) X(BL, loops) X(OI, third_party_source_id)        \
-    X(I, streaming_flags) X(B, explicit_lyrics) X(OI, active_on_load_loops) X(T, last_edit_time)
-
-json jI(int64_t v) { return sj::jint(v); }
-json jOI(const std::optional<int64_t>& v) { return v ? json::array({sj::jint(*v)}) : json::array(); }
-json jOK(const std::optional<int32_t>& v) { return v ? json::array({(int)*v}) : json::array(); }
-json jS(const std::string& s) { return sj::tok(s); }
-json jOS(const std::optional<std::string>& s) { return s ? json::array({sj::tok(*s)}) : json::array(); }
-json jOD(const std::optional<double>& d) { return d ? json::array({sj::dbits(*d)}) : json::array(); }
-json jB(bool b) { return b; }
-json jT(tp t) { return sj::jtime(t); }
-json jTT(tp t) { return sj::jtime(t); }
-json jOT(const std::optional<tp>& t) { return t ? json::array({sj::jtime(*t)}) : json::array(); }
-template <typename Blob>
-json jBL(const Blob& b)
-{
-    auto bytes = b.to_blob();
-    return "#" + std::to_string(bytes.size()) + ":" + sj::hex16(sj::fnv(bytes.data(), bytes.size()));
-}
-
-json row_json(const v2::track_row& r)
-{
-    json j;
-    j["id"] = r.id;
-#define X(kind, f) j[#f] = j##kind(r.f);
-    TRACK_COLUMNS(X)
-#undef X
-    return j;
-}
-
-tp mk_time(int ci, int v, bool frac) { return tp{std::chrono::duration_cast<tp::duration>(std::chrono::milliseconds{(1600000000LL + ci * 1000LL + v) * 1000LL + (frac ? 500 : 0)})}; }
-
-// value generator: variant v, mask m (which optionals are absent), serial s (unique path)
-struct gen
-{
-    int v, m, serial, ci = 0;
-    bool absent() const { return m == 1 || (m == 2 && ci % 2 == 0) || (m == 3 && ci % 2 == 1); }
-    int64_t I() { return 1000LL * v + ci; }
-    void operator()(const char* name, int64_t& x)
-    {
-        ++ci;
-        std::string n = name;
-        if (n == "album_art_id")
-            x = 1;
-        else if (n == "rating")
-            x = (v * 7 + ci) % 100 + 1;
-        else if (n == "length")
-            x = 100 + 10 * v + ci;
-        else if (n == "origin_track_id")
-            x = v % 3 == 0 ? 0 : I();
-        else
-            x = I();
-    }
-    void operator()(const char*, std::optional<int64_t>& x) { ++ci; x = absent() ? std::nullopt : std::make_optional<int64_t>(I()); }
-    void operator()(const char*, std::optional<int32_t>& x) { ++ci; x = absent() ? std::nullopt : std::make_optional<int32_t>((v + ci) % 24); }
-    void operator()(const char* name, std::string& x)
-    {
-        ++ci;
-        std::string n = name;
-        if (n == "path")
-            x = "music/c" + std::to_string(ci) + "v" + std::to_string(v) + "_" + std::to_string(serial) + ".mp3";
-        else if (n == "origin_database_uuid")
-            x = v % 3 == 0 ? std::string() : "uuid-c" + std::to_string(ci) + "v" + std::to_string(v);
-        else
-            x = std::string(name) + "-c" + std::to_string(ci) + "v" + std::to_string(v);
-    }
-    void operator()(const char* name, std::optional<std::string>& x)
-    {
-        ++ci;
-        if (absent())
-            x = std::nullopt;
-        else if (v % 5 == 4 && ci % 4 == 0)
-            x = std::string();   // present but empty
-        else
-            x = std::string(name) + "-c" + std::to_string(ci) + "v" + std::to_string(v);
-    }
-    void operator()(const char*, std::optional<double>& x) { ++ci; x = absent() ? std::nullopt : std::make_optional(ci + v * 0.5); }
-    void operator()(const char*, bool& x) { ++ci; x = (ci + v) % 2 == 0; }
-    void operator()(const char*, tp& x) { ++ci; x = mk_time(ci, v, v % 4 == 3); }
-    void operator()(const char*, std::optional<tp>& x) { ++ci; x = absent() ? std::nullopt : std::make_optional(mk_time(ci, v, v % 4 == 3)); }
-    void operator()(const char*, v2::track_data_blob& b) { ++ci; b = v2::track_data_blob{44100.0 + v, 1000 * v + 7, v % 24, 0.5 + v, 0.25 + v, 0.125 + v}; }
-    void operator()(const char*, v2::overview_waveform_data_blob& b)
-    {
-        ++ci;
-        b = v2::overview_waveform_data_blob{};
-        for (int i = 0; i < v % 4; ++i)
-            b.waveform_points.push_back(v2::overview_waveform_point{(uint8_t)(i + v), (uint8_t)(2 * i + v), (uint8_t)(3 * i + v)});
-        b.samples_per_waveform_point = 10.0 * v;
-        b.maximum_point = v2::overview_waveform_point{(uint8_t)v, (uint8_t)(v + 1), (uint8_t)(v + 2)};
-    }
-    void operator()(const char*, v2::beat_data_blob& b)
-    {
-        ++ci;
-        b = v2::beat_data_blob{};
-        b.sample_rate = 48000.0 + v;
-        b.samples = 2000.0 * v;
-        b.is_beatgrid_set = 1;
-        for (int i = 0; i < 1 + v % 3; ++i)
-            b.default_beat_grid.push_back(v2::beat_grid_marker_blob{100.0 * i + v, 4 * i, 4, 0});
-        b.adjusted_beat_grid = b.default_beat_grid;
-        b.extra_data = std::vector<std::byte>(9, std::byte{0});
-    }
-    void operator()(const char*, v2::quick_cues_blob& b)
-    {
-        ++ci;
-        b = v2::quick_cues_blob{};
-        for (int i = 0; i < 8; ++i)
-            b.quick_cues.push_back(i == v % 8 ? v2::quick_cue_blob{"cue" + std::to_string(v), 123.0 + v, dj::pad_color{1, 2, 3, 255}} : v2::quick_cue_blob::empty());
-        b.adjusted_main_cue = 5.0 + v;
-        b.is_main_cue_adjusted = true;
-        b.default_main_cue = 4.0 + v;
-    }
-    void operator()(const char*, v2::loops_blob& b)
-    {
-        ++ci;
-        b = v2::loops_blob{};
-        for (int i = 0; i < 8; ++i)
-            b.loops.push_back(i == v % 8 ? v2::loop_blob{"loop" + std::to_string(v), 10.0 + v, 20.0 + v, 1, 1, dj::pad_color{4, 5, 6, 255}} : v2::loop_blob::empty());
-    }
-};
-
-v2::track_row make_row(int v, int m, int serial)
-{
-    v2::track_row r{};
-    r.id = 0;
-    gen g{v, m, serial};
-#define X(kind, f) g(#f, r.f);
-    TRACK_COLUMNS(X)
-#undef X
-    r.last_edit_time = tp{};
-    return r;
-}
+using namespace trow;
 
 struct world
 {
     std::optional<v2::engine_library> lib;
+    sqlite3* conn = nullptr;
     std::vector<int64_t> ids{0};   // handle -> track row id
     std::vector<int64_t> pls{0};   // handle -> playlist id
     int serial = 0;
@@ -229,6 +92,20 @@ json observe(world& w)
     return o;
 }
 
+// observation with the C16 bookkeeping: write statements issued by the read functions, rows changed, digest of all
+// tables before / after, a second identical observation
+json observation_phase(world& w, json& rec)
+{
+    vh::raw_reader rr{w.conn};
+    std::string d0 = rr.digest();
+    int chg0 = sqlite3_total_changes(w.conn);
+    shim::begin_call();
+    json o = observe(w);
+    json o2 = observe(w);
+    rec["o16"] = {{"w", shim::n_writes()}, {"chg", sqlite3_total_changes(w.conn) - chg0}, {"rep", o == o2}, {"same", rr.digest() == d0}};
+    return o;
+}
+
 void set_column(v2::track_table& t, int64_t id, const std::string& col, const v2::track_row& src)
 {
 #define X(kind, f)            \
@@ -251,8 +128,16 @@ int main(int argc, char** argv)
 {
     if (argc < 3)
         return 2;
+    long skip = 0;
+    for (int i = 3; i + 1 < argc; i += 2)
+    {
+        if (!strcmp(argv[i], "--skip"))
+            skip = atol(argv[i + 1]);
+        else if (!strcmp(argv[i], "--watchdog"))
+            vh::g_watchdog_s = atoi(argv[i + 1]);
+    }
     std::ifstream in(argv[1]);
-    FILE* out = fopen(argv[2], "w");
+    FILE* out = fopen(argv[2], skip ? "a" : "w");
     if (!in || !out)
         return 2;
     vh::g_trace_fd = fileno(out);
@@ -272,15 +157,22 @@ int main(int argc, char** argv)
             ++exec_no;
             w = world{};
             dead = false;
+            have = false;
+            if (exec_no <= skip)
+                continue;
             w.schema_name = op.at("schema");
             json r = {{"e", "reset"}, {"x", exec_no}, {"schema", w.schema_name}, {"sid", op.value("sid", "")}};
-            auto oc = vh::guarded("reset", [&] { w.lib = v2::engine_library::create_temporary(vh::schema_by_name(w.schema_name)); });
+            shim::reset_dbs();
+            auto oc = vh::guarded("reset", [&] {
+                w.lib = v2::engine_library::create_temporary(vh::schema_by_name(w.schema_name));
+                w.conn = shim::last_db();
+            });
             r["out"] = oc.ok ? "ok" : "throw";
             have = oc.ok;
             if (have)
             {
                 r["uuid"] = sj::tok(w.lib->information().get().uuid);
-                r["obs"] = observe(w);
+                r["obs"] = observation_phase(w, r);
             }
             vh::emit(r);
             continue;
@@ -358,7 +250,7 @@ int main(int argc, char** argv)
         rec["std"] = oc.std_exc;
         rec["new"] = newid;
         json o;
-        auto oo = vh::guarded("observe", [&] { o = observe(w); });
+        auto oo = vh::guarded("observe", [&] { o = observation_phase(w, rec); });
         if (!oo.ok)
         {
             rec["obs_throw"] = oo.ex;
